@@ -24,5 +24,5 @@ one() {
   git -C /repo worktree remove --force $WT
 }
 export -f one run_tests; export OUT
-ls /verif/seeded | xargs -P 4 -I{} bash -c 'one {}'
+ls /verif/seeded | grep -E -e "${1:-.}" | grep -v MATRIX | xargs -P 4 -I{} bash -c 'one {}'
 cat $OUT/*.result
